@@ -299,39 +299,96 @@ def ident_classes(rx, node, fname):
 
 
 # ---------------------------------------------------------------------------------------------- the two files
+# features of the problem a keyword table may depend on (the harness computes the same flags from the Problem)
+LEN_FEATURES = ("processes", "events", "trajectory_constraints", "timed_effects", "timed_goals")
+
+
+def is_self_problem(n):
+    return isinstance(n, ast.Attribute) and n.attr == "problem" and isinstance(n.value, ast.Name) and n.value.id == "self"
+
+
+def dotted_tail(n):
+    while isinstance(n, ast.Attribute):
+        return n.attr
+    return n.id if isinstance(n, ast.Name) else None
+
+
+def cond_features(e, fname):
+    """A condition of PDDLWriter.__init__ as a disjunction of problem features:
+         len(self.problem.X) > 0                                                   -> "X"
+         any(map(lambda a: isinstance(a, <..>.DurativeAction), self.problem.actions)) -> "durative_actions"
+         isinstance(self.problem, ContingentProblem)                                -> "contingent"
+         c1 or c2 ...                                                              -> union"""
+    if isinstance(e, ast.BoolOp) and isinstance(e.op, ast.Or):
+        return sum((cond_features(v, fname) for v in e.values), [])
+    if isinstance(e, ast.Compare) and len(e.ops) == 1 and isinstance(e.ops[0], ast.Gt) \
+            and isinstance(e.comparators[0], ast.Constant) and e.comparators[0].value == 0 \
+            and isinstance(e.left, ast.Call) and isinstance(e.left.func, ast.Name) and e.left.func.id == "len" \
+            and len(e.left.args) == 1 and isinstance(e.left.args[0], ast.Attribute) and is_self_problem(e.left.args[0].value) \
+            and e.left.args[0].attr in LEN_FEATURES:
+        return [e.left.args[0].attr]
+    if isinstance(e, ast.Call) and isinstance(e.func, ast.Name) and e.func.id == "isinstance" and len(e.args) == 2 \
+            and is_self_problem(e.args[0]) and dotted_tail(e.args[1]) == "ContingentProblem":
+        return ["contingent"]
+    if isinstance(e, ast.Call) and isinstance(e.func, ast.Name) and e.func.id == "any" and len(e.args) == 1 and not e.keywords:
+        m = e.args[0]
+        if isinstance(m, ast.Call) and isinstance(m.func, ast.Name) and m.func.id == "map" and len(m.args) == 2 \
+                and isinstance(m.args[0], ast.Lambda) and len(m.args[0].args.args) == 1 \
+                and isinstance(m.args[1], ast.Attribute) and m.args[1].attr == "actions" and is_self_problem(m.args[1].value):
+            lam = m.args[0]
+            v = lam.args.args[0].arg
+            b = lam.body
+            if isinstance(b, ast.Call) and isinstance(b.func, ast.Name) and b.func.id == "isinstance" and len(b.args) == 2 \
+                    and isinstance(b.args[0], ast.Name) and b.args[0].id == v and dotted_tail(b.args[1]) == "DurativeAction":
+                return ["durative_actions"]
+    die(e, "condition on a keyword table is outside the understood forms: %s" % ast.unparse(e)[:120], fname)
+
+
 def pddl_init_tables(tree, fname):
-    """Which tables may PDDLWriter.__init__ put into self.pddl_keywords."""
+    """self.pddl_keywords in PDDLWriter.__init__: the base table and, for every `|= TABLE`, the condition under which it
+    is executed (None = always, else a list of problem features of which at least one must hold)."""
     fn = find_function(tree, "__init__", fname, cls="PDDLWriter")
-    base, extra = [], []
-    for n in ast.walk(fn):
-        tgt = None
-        if isinstance(n, ast.Assign) and len(n.targets) == 1:
-            tgt, val, aug = n.targets[0], n.value, False
-        elif isinstance(n, ast.AugAssign):
-            tgt, val, aug = n.target, n.value, True
-        elif isinstance(n, ast.AnnAssign):
-            tgt, val, aug = n.target, n.value, False
-        if tgt is None or not (isinstance(tgt, ast.Attribute) and tgt.attr == "pddl_keywords"):
-            continue
-        if not aug and isinstance(val, ast.Call) and isinstance(val.func, ast.Name) and val.func.id == "set" \
-                and len(val.args) == 1 and not val.keywords:
-            val = val.args[0]            # set(TABLE): the writer's own copy of the table
+
+    def is_kw_target(t):
+        return isinstance(t, ast.Attribute) and t.attr == "pddl_keywords"
+
+    def table_of(n, val):
         if not (isinstance(val, ast.Name) and val.id in PDDL_TABLES):
             die(n, "self.pddl_keywords is assigned something that is not one of the keyword tables", fname)
-        if aug:
-            if not isinstance(n.op, ast.BitOr):
-                die(n, "self.pddl_keywords is updated by an operator other than |=", fname)
-            extra.append(val.id)
-        else:
-            base.append(val.id)
+        return val.id
+
+    base, rules, understood = [], [], set()
+    for st in fn.body:
+        if isinstance(st, (ast.Assign, ast.AnnAssign)):
+            tgt = st.targets[0] if isinstance(st, ast.Assign) and len(st.targets) == 1 else getattr(st, "target", None)
+            if tgt is not None and is_kw_target(tgt):
+                val = st.value
+                if isinstance(val, ast.Call) and isinstance(val.func, ast.Name) and val.func.id == "set" \
+                        and len(val.args) == 1 and not val.keywords:
+                    val = val.args[0]            # set(TABLE): the writer's own copy of the table
+                base.append(table_of(st, val))
+                understood.add(id(tgt))
+        elif isinstance(st, ast.AugAssign) and is_kw_target(st.target):
+            if not isinstance(st.op, ast.BitOr):
+                die(st, "self.pddl_keywords is updated by an operator other than |=", fname)
+            rules.append((None, table_of(st, st.value)))
+            understood.add(id(st.target))
+        elif isinstance(st, ast.If) and any(is_kw_target(x) for x in ast.walk(st) if isinstance(x, ast.Attribute)):
+            if st.orelse:
+                die(st, "else/elif branch around a keyword table", fname)
+            feats = sorted(set(cond_features(st.test, fname)))
+            for b in st.body:
+                if not (isinstance(b, ast.AugAssign) and is_kw_target(b.target) and isinstance(b.op, ast.BitOr)):
+                    die(b, "only `self.pddl_keywords |= TABLE` is understood inside such an if", fname)
+                rules.append((feats, table_of(b, b.value)))
+                understood.add(id(b.target))
     if len(base) != 1:
         die(fn, "self.pddl_keywords must be initialised exactly once", fname)
     for n in ast.walk(tree):
-        if isinstance(n, ast.Attribute) and n.attr == "pddl_keywords" and isinstance(n.ctx, (ast.Store, ast.Del)):
-            # only inside __init__
-            if not any(n is x for x in ast.walk(fn)):
-                die(n, "self.pddl_keywords is assigned outside PDDLWriter.__init__", fname)
-    return base[0], extra
+        if isinstance(n, ast.Attribute) and n.attr == "pddl_keywords" and isinstance(n.ctx, (ast.Store, ast.Del)) \
+                and id(n) not in understood:
+            die(n, "self.pddl_keywords is assigned in a place the translator does not understand", fname)
+    return base[0], rules
 
 
 def anml_builtin_names(tree, fname):
@@ -363,7 +420,7 @@ def read_sources():
         data[t] = str_set(tree, t, PW)
     data["pddl_letters"] = letter_table(tree, PW)
     base, extra = pddl_init_tables(tree, PW)
-    data["pddl_base_table"], data["pddl_extra_tables"] = base, extra
+    data["pddl_base_table"], data["pddl_rules"] = base, [[c, t] for c, t in extra]
     fn = strip_fn(find_function(tree, "_get_pddl_name", PW))
     h = extract_holes(fn, PW)
     shapes["_get_pddl_name"] = fn_shape(fn)
@@ -492,11 +549,15 @@ def emit(data):
              "CONTINGENT_PDDL_KEYWORDS": "pddl_contingent_keywords"}
     for t in PDDL_TABLES:
         w("Definition %s : list string :=\n  %s.\n" % (names[t], gstrings(data[t])))
-    w("(* PDDLWriter.__init__: self.pddl_keywords = (a copy of) %s, then |= some of %s *)" % (
-        data["pddl_base_table"], ", ".join(data["pddl_extra_tables"]) or "(nothing)"))
+    w("(* PDDLWriter.__init__: self.pddl_keywords = (a copy of) %s; then each rule (condition, table):\n"
+      "   None = always added; Some [f1; ...] = added when the problem has at least one of the features\n"
+      "   (processes / events / trajectory_constraints: len(problem.X) > 0; durative_actions: some action is a\n"
+      "   DurativeAction; contingent: the problem is a ContingentProblem) *)" % data["pddl_base_table"])
     w("Definition pddl_base_keywords : list string := %s." % names[data["pddl_base_table"]])
-    w("Definition pddl_optional_keywords : list (list string) := [%s]." % "; ".join(
-        names[t] for t in data["pddl_extra_tables"]))
+    w("Definition pddl_keyword_rules : list (option (list string) * list string) :=\n  [%s]." % ";\n   ".join(
+        "(%s, %s)" % ("None" if c is None else "Some [%s]" % "; ".join(gstring(f) for f in c), names[t])
+        for c, t in data["pddl_rules"]))
+    w("Definition pddl_optional_keywords : list (list string) := map snd pddl_keyword_rules.")
     w("Definition pddl_all_keywords : list string := pddl_base_keywords ++ List.concat pddl_optional_keywords.\n")
     w("Definition pddl_initial_letter : list (string * string) :=\n  [%s]." % "; ".join(
         "(%s, %s)" % (gstring(k), gstring(v)) for k, v in data["pddl_letters"]))
